@@ -482,6 +482,12 @@ def ref_chain(chain, d):
 
 def build_chain(chain, style):
     DE = edzed.DataEdit
+    if style == 'stmt':
+        # built by separate statements on one explicitly created instance (results ignored)
+        flt = DE()
+        for (_name, build, _ref) in chain:
+            build(flt)
+        return flt
     flt = DE if style == 'cls' else DE()
     for (_name, build, _ref) in chain:
         flt = build(flt)
@@ -528,7 +534,7 @@ def run_dataedit(cfg, acc):
         built = []
         for chain in chains:
             has_out = any('add_output' in c[0] for c in chain)
-            styles = ('cls', 'inst')
+            styles = ('cls', 'inst', 'stmt')
             for style in styles:
                 built.append((chain, style, build_chain(chain, style), has_out))
             if has_out:
@@ -765,8 +771,11 @@ def run_pipeline(cfg, acc):
         for seq in seqs:
             fl = [make_filter(FKINDS[k], pos, seen) for pos, k in enumerate(seq)]
             filters = [f for f, _r in fl]
-            for style in ('list',) if len(seq) != 1 else ('list', 'single', 'tuple'):
-                arg = filters if style == 'list' else filters[0] if style == 'single' else tuple(filters)
+            # ('gen' / 'iter': one-shot iterators are deprecated as filter lists, but accepted)
+            for style in ('list', 'gen') if len(seq) != 1 else ('list', 'single', 'tuple', 'gen', 'iter'):
+                arg = (filters if style == 'list' else filters[0] if style == 'single'
+                       else (f for f in filters) if style == 'gen' else iter(list(filters)) if style == 'iter'
+                       else tuple(filters))
                 if not seq:
                     arg = None
                 items.append((seq, [r for _f, r in fl], edzed.Event(probe, 'ev', efilter=arg)))
